@@ -156,17 +156,19 @@ pub fn run(a: &Args) {
             built = Some((fresh_filters, fresh_strat, fa, sa));
         }
         let (filters, strat, fa, sa) = built.as_ref().map(|(f, s, fa, sa)| (f.clone(), s.clone(), fa, sa)).unwrap();
-        let (filtered, chosen) = rt.block_on(async {
+        let guarded = std::panic::catch_unwind(std::panic::AssertUnwindSafe(|| rt.block_on(async {
             let filtered = fa.filter(&client, (&host, 25565), 767, (&name, &uid), targets.clone()).await.expect("filter");
             let chosen = sa.select(&client, (&host, 25565), 767, (&name, &uid), filtered.clone()).await.expect("select");
             (filtered, chosen)
-        });
+        })));
+        let (filtered, chosen, panicked) = match guarded { Ok((f, c)) => (f, c, false), Err(_) => (vec![], None, true) };
 
         // naive evaluator (oracle)
         let applicable = |f: &Filt| f.host.as_ref().is_none_or(|h| regex::Regex::new(h).unwrap().is_match(&host));
         let passes = filters.iter().filter(|f| applicable(f)).all(|f| match &f.kind { Kind::Allow(l) => listed(l, &name, &uid), Kind::Block(l) => !listed(l, &name, &uid), _ => true });
         let eligible: Vec<&Target> = if passes { targets.iter().filter(|t| filters.iter().filter(|f| applicable(f)).all(|f| match &f.kind { Kind::Rules(rs) => rs.iter().all(|(k, o)| rule_holds(o, t.meta.get(k))), _ => true })).collect() } else { vec![] };
         let mut why = vec![];
+        if panicked { why.push("a filter or the strategy panicked on this query".to_string()); }
         let ids = |v: &[&Target]| v.iter().map(|t| t.identifier.clone()).collect::<Vec<_>>();
         if ids(&filtered.iter().collect::<Vec<_>>()) != ids(&eligible) { why.push(format!("filters returned {:?}, eligible are {:?}", ids(&filtered.iter().collect::<Vec<_>>()), ids(&eligible))); }
         match &strat {
